@@ -5,7 +5,7 @@ HERE = os.path.dirname(os.path.abspath(__file__))
 ASSUMPTIONS = [
     "an allocation 'made inside a library operation' is a malloc/calloc/realloc call issued by a libcperciva object while the harness is inside a library call (link-time --wrap; libc-internal allocations are outside by construction)",
     "objects whose interface does not promise reuse after a failed call (buffered reader/writer, HTTP request) are only released afterwards, never used further",
-    "a request that dies inside the event loop (events_run returns -1 without a callback, its cookie already freed) is recognised by the harness through the tracking allocator and not cancelled a second time",
+    "a plain network_connect request that dies inside the event loop (events_run returns -1, its cookie already freed) is recognised by the harness through the tracking allocator and not cancelled a second time; since fix 20176b1 (F13) the library reports such failures through the callback and this branch is no longer taken for connects",
     "the kernel is the model in engine/simk.h",
     "trusted: clang 14 + ASan/UBSan, rapidcheck, the tracking allocator in engine/allocwrap.h",
 ]
